@@ -5,5 +5,6 @@ CONSTANTS
   FullLen = 4
   MaxMacroFlat = 3
   PartsLevel = 2
+  LongMacros = {"HL261", "HL262", "HL300", "HL1000", "HL4096", "A300", "A1000", "D4096"}
 INVARIANT MCLaws
 CHECK_DEADLOCK FALSE
